@@ -186,3 +186,206 @@ Proof. vm_compute. repeat split; reflexivity. Qed.
    pointer to a map: finding C04-option-env-pointer-to-map), and whether the checker, the operator
    patcher and the optimizer passes (no executable model of the checker exists) meet the totality
    hypotheses of C04_containment on every input. *)
+
+(* ================================================================== 7. the totality hypotheses of
+   C04_containment, discharged for the stages whose executable model exists (Pipe/StageTotality.v).
+   This supersedes the last clause of the note above: models of the checker (Ty/Checker.v), the
+   operator patcher (Ops/Overload.v) and the optimizer (Opt/Optimizer.v) exist and are total. *)
+Require Import X.Pipe.StageTotality.
+
+(* ---- 7.1 the checker model has no panic path.  For every configuration whose declarations embed
+   acyclically and whose operator functions have the shape Config.Check demands (`cfg_ok`), and
+   every tree - any of the 22 node kinds in any position - whose builtin nodes carry the arguments
+   their name indexes (`arity_ok`): Check does not report CStuck, and no node of the tree is a panic
+   site behind an earlier error either (`stuck_in`: every node, visited or not, under the
+   collection stack and with the operand types the checker computes).  The weight table of
+   checker/types.go is the regenerated one (gen_weights_usable). *)
+Theorem C04_check_total : forall c : X.Ty.Checker.cconfig, cfg_ok c = true ->
+  forall e, arity_ok e = true ->
+  (forall l, snd (X.Ty.Checker.check c e) <> Some (l, X.Ty.Checker.CStuck)) /\
+  (forall cols, stuck_in c cols e = false).
+Proof. exact (fun c => check_never_stuck c gen_weights_usable). Qed.
+Print Assumptions C04_check_total.
+
+(* the same from every error state of the visitor, under every collection stack *)
+Theorem C04_visit_total : forall c : X.Ty.Checker.cconfig, cfg_ok c = true ->
+  forall e, arity_ok e = true -> forall cols st l,
+  snd (X.Ty.Checker.visit c cols e st) = Some (l, X.Ty.Checker.CStuck) -> st = Some (l, X.Ty.Checker.CStuck).
+Proof. exact (fun c => visit_never_stuck c gen_weights_usable). Qed.
+Print Assumptions C04_visit_total.
+
+(* `stuck_in` is adequate, for ALL configurations and trees: a CStuck that the visitor reports comes
+   from a node that `stuck_in` flags *)
+Theorem C04_stuck_is_flagged : forall (c : X.Ty.Checker.cconfig) e cols,
+  match snd (X.Ty.Checker.visit c cols e None) with
+  | Some (_, X.Ty.Checker.CStuck) => stuck_in c cols e = true
+  | _ => True
+  end.
+Proof. exact stuck_is_flagged. Qed.
+Print Assumptions C04_stuck_is_flagged.
+
+(* fieldType / methodType terminate on acyclic declarations (the fuel of the model suffices) *)
+Theorem C04_field_type_total : forall te t name, te_acyclic te = true ->
+  X.Ty.TypesTable.field_type te (X.Ty.TypesTable.fuel0 te) t name <> X.Ty.TypesTable.LFuel /\
+  X.Ty.TypesTable.method_type te (X.Ty.TypesTable.fuel0 te) t name <> X.Ty.TypesTable.LFuel.
+Proof.
+  exact (fun te t name H => conj (field_type_total te _ t name (te_acyclic_emb_ok te t H))
+                                 (method_type_total te _ t name (te_acyclic_emb_ok te t H))).
+Qed.
+Print Assumptions C04_field_type_total.
+
+(* the statement without carve-outs is false of the model; each witness is a candidate panic (or
+   fatal error) of the real checker:
+   (a) a builtin node without its arguments - `len()`, `all(xs)` - which only a user visitor can
+       build (the parser never does: C04_parser_arity);
+   (b) the same node behind an ordinary error: invisible in the first error, flagged by stuck_in;
+   (c) `type T struct{ *T }` in the environment: fieldType recurses without end;
+   (d) an operator function missing from the environment: excluded by Config.Check. *)
+Definition C04_check_total_full_statement : Prop := check_never_stuck_full_statement.
+
+Theorem C04_check_total_refuted : ~ C04_check_total_full_statement.
+Proof. exact check_never_stuck_refuted. Qed.
+Print Assumptions C04_check_total_refuted.
+
+Theorem C04_check_total_refuted_arity : cfg_ok CkWit.cc0 = true /\ arity_ok CkWit.len0 = false /\
+  snd (X.Ty.Checker.check CkWit.cc0 CkWit.len0) = Some ((1, 0)%Z, X.Ty.Checker.CStuck) /\
+  arity_ok CkWit.all1 = false /\ snd (X.Ty.Checker.check CkWit.cc0 CkWit.all1) = Some ((1, 0)%Z, X.Ty.Checker.CStuck).
+Proof. exact check_never_stuck_refuted_arity. Qed.
+
+Theorem C04_check_total_refuted_hidden : cfg_ok CkWit.cc_strict0 = true /\ arity_ok CkWit.hidden = false /\
+  snd (X.Ty.Checker.check CkWit.cc_strict0 CkWit.hidden) = Some ((1, 1)%Z, X.Ty.Checker.CUnknownName) /\
+  stuck_in CkWit.cc_strict0 [] CkWit.hidden = true.
+Proof. exact hidden_stuck_refuted. Qed.
+
+Theorem C04_check_total_refuted_cyclic : arity_ok CkWit.x_missing = true /\ X.Ty.Types.wf_tenv CkWit.te_cyc = true /\
+  te_acyclic CkWit.te_cyc = false /\ ops_usable CkWit.cc_cyc = true /\
+  snd (X.Ty.Checker.check CkWit.cc_cyc CkWit.x_missing) = Some ((1, 1)%Z, X.Ty.Checker.CStuck).
+Proof. exact check_never_stuck_refuted_cyclic. Qed.
+
+Theorem C04_check_total_refuted_operator : arity_ok CkWit.one_plus_two = true /\ te_acyclic [] = true /\
+  ops_usable CkWit.cc_badop = false /\
+  snd (X.Ty.Checker.check CkWit.cc_badop CkWit.one_plus_two) = Some ((1, 2)%Z, X.Ty.Checker.CStuck).
+Proof. exact check_never_stuck_refuted_operator. Qed.
+
+(* Config.Check (operator part) establishes the operator half of cfg_ok *)
+Theorem C04_config_check_gives_usable : forall c : X.Ty.Checker.cconfig,
+  X.Ops.Overload.config_check (types_of c) (ops_of (X.Ty.Checker.cc_ops c)) = true -> ops_usable c = true.
+Proof. exact config_check_ops_usable. Qed.
+Print Assumptions C04_config_check_gives_usable.
+
+(* the parser builds builtin nodes with the arity of the grammar table, for every token list; the
+   regenerated table gives len one argument and the closure builtins two *)
+Theorem C04_parser_arity : forall g o ts e, ParseArity.builtins_ok g = true ->
+  X.Parse.Parser.parse g o ts = X.Parse.Parser.ROk e -> arity_ok e = true.
+Proof. exact ParseArity.parse_arity_ok. Qed.
+Print Assumptions C04_parser_arity.
+
+Theorem C04_gen_grammar_arity : ParseArity.builtins_ok gen_grammar = true.
+Proof. exact gen_grammar_builtins_ok. Qed.
+
+(* ---- 7.2 compiler.PatchOperators: once Config.Check accepted, for every tree, every side table of
+   static types and every Implements oracle the walk finishes within esize e steps and no lookup
+   panics *)
+Theorem C04_patch_ops_total : forall implements types ops tyof e,
+  X.Ops.Overload.config_check types ops = true ->
+  exists e', X.Ops.Overload.patch_ops implements types ops tyof (esize e) e = X.Ops.Overload.PDone e'.
+Proof. exact patch_ops_total. Qed.
+Print Assumptions C04_patch_ops_total.
+
+(* ---- 7.3 optimizer.Optimize (fold loop bounded by 1001 walks, constExpr loop by 101, as in the
+   code): a tree, or the error of a constant integer division / modulo by zero or of a failing
+   ConstExpr call; the model has no other outcome, for all trees *)
+Theorem C04_optimize_total : forall fe env cn e,
+  (exists e', X.Opt.Optimizer.optimize fe env cn e = X.Opt.Optimizer.OOk e') \/
+  (exists l, X.Opt.Optimizer.optimize fe env cn e = X.Opt.Optimizer.OFail l /\
+             (X.Opt.OptProofs.has_dz e = true \/ X.Opt.OptProofs.cx_fails fe env cn)).
+Proof. exact optimize_total. Qed.
+Print Assumptions C04_optimize_total.
+
+(* ---- 7.4 the pipeline with the stage behaviours INSTANTIATED by the models: options and
+   Config.Check (operator part), model lexer, model parser, Ty/Checker.check (CStuck = panic),
+   Ops/Overload.patch_ops (out of fuel = panic), the five optimizer passes, `compilable`, the
+   reference semantics with arbitrary (panicking) environment functions - under the REGENERATED call
+   lists and recover table.  No totality hypothesis on any stage is left.  What remains:
+     te_acyclic te       the struct declarations embed acyclically (else: stack overflow, (c) above);
+     builtins_ok gr      the grammar table (true of the regenerated one: C04_gen_grammar_arity);
+     opt_ok              per option: no pointer-to-map environment (finding
+                         C04-option-env-pointer-to-map); a user visitor (any function on trees)
+                         returns, and keeps trees inside arity_ok (vis_ok).
+   The compiler and the VM are contained by the recovers of the regenerated table (guarded_facts). *)
+Theorem C04_containment_models :
+  forall uni_letter uni_digit uni_space gr orc fe limit te perm implements tyof,
+  te_acyclic te = true -> ParseArity.builtins_ok gr = true ->
+  (forall opts src env, Forall opt_ok opts ->
+     compile_api gen_recover (x_stages uni_letter uni_digit uni_space gr orc fe limit te perm implements tyof)
+                 nil_on_err_compile compile_calls opts src env <> APanic) /\
+  (forall src env,
+     eval_api gen_recover (x_stages uni_letter uni_digit uni_space gr orc fe limit te perm implements tyof)
+              nil_on_err_eval eval_calls src env <> APanic) /\
+  (forall src p env,
+     run_api gen_recover (x_stages uni_letter uni_digit uni_space gr orc fe limit te perm implements tyof)
+             nil_on_err_run gen_run_nil_guard run_calls_gen src p env <> APanic).
+Proof. exact containment_models. Qed.
+Print Assumptions C04_containment_models.
+
+(* option sets without user visitors: a decidable test *)
+Theorem C04_no_visitor_options_ok : forall opts, forallb no_visitor opts = true -> Forall opt_ok opts.
+Proof. exact no_visitor_ok. Qed.
+
+(* ---- non-vacuity: the composed model pipeline runs (regenerated grammar, call list, recover table) *)
+Definition mx_stages (te : X.Ty.Types.tenv) : stages :=
+  x_stages (fun _ => false) (fun _ => false) (fun _ => false) gen_grammar ex_or ex_fe 1000000%Z te
+           X.Ty.TypesTable.perm_id (fun _ _ => false) (fun _ _ _ => TNilT).
+Definition mx_compile (opts : list xopt) (s : string) : oclass :=
+  class_of (compile_api gen_recover (mx_stages []) nil_on_err_compile compile_calls opts (X.Lex.Lexer.rs s) VNil).
+Definition mx_env : X.Ty.TypesTable.envty :=
+  X.Ty.TypesTable.EMap (TMap TString TIface) [("xs"%string, TSlice (TNum X.Base.Num.KInt)); ("n"%string, TNum X.Base.Num.KInt)].
+
+(* a well-typed program, an ill-typed one, a syntax error *)
+Example models_compile_examples :
+  mx_compile [] "1 + 2" = KOk /\ mx_compile [] "1 + 'a'" = KErr /\ mx_compile [] "1 +" = KErr.
+Proof. vm_compute. repeat split; reflexivity. Qed.
+
+(* with expr.Env and AsBool: builtins, closures, undefined names *)
+Example models_compile_env_examples :
+  Forall opt_ok [OEnv mx_env VNil; OExpect RKBool] /\ te_acyclic [] = true /\
+  mx_compile [OEnv mx_env VNil] "len(xs) + n" = KOk /\ mx_compile [OEnv mx_env VNil] "len(n)" = KErr /\
+  mx_compile [OEnv mx_env VNil; OExpect RKBool] "all(xs, {# > n})" = KOk /\
+  mx_compile [OEnv mx_env VNil; OExpect RKBool] "n" = KErr /\
+  mx_compile [OEnv mx_env VNil] "undefined_name" = KErr.
+Proof. split; [repeat constructor|]. vm_compute. repeat split; reflexivity. Qed.
+
+(* user visitors inside the hypothesis: one that leaves the tree alone, one that replaces it *)
+Example models_compile_visitor_examples :
+  Forall opt_ok [OPatch (fun t => POk t); OPatch (fun _ => POk (EBool ann0 true)); OExpect RKBool] /\
+  mx_compile [OPatch (fun t => POk t); OPatch (fun _ => POk (EBool ann0 true)); OExpect RKBool] "1 + 'a'" = KOk.
+Proof.
+  split; [|vm_compute; reflexivity].
+  constructor; [intros t Ht; exact Ht|]. constructor; [intros t Ht; reflexivity|]. constructor; [exact I|constructor].
+Qed.
+
+(* the node shapes a visitor can build and the parser cannot - a pair outside a map, a closure
+   outside a builtin, a pointer outside a closure, a builtin whose collection is no collection and
+   whose second argument is no closure - are inside arity_ok: C04_check_total covers them (they are
+   ordinary errors or accepted, in the model as in the code) *)
+Example odd_shapes_inside :
+  arity_ok (EPair ann0 (EStr ann0 "k") (EInt ann0 1)) = true /\ arity_ok (EClosure ann0 (EInt ann0 1)) = true /\
+  arity_ok (EPointer ann0) = true /\ arity_ok (EBuiltin ann0 BiAll [EInt ann0 1; EPointer ann0]) = true /\
+  snd (X.Ty.Checker.check CkWit.cc0 (EPair ann0 (EStr ann0 "k") (EInt ann0 1))) = None /\
+  snd (X.Ty.Checker.check CkWit.cc0 (EPointer ann0)) = Some (noloc, X.Ty.Checker.CPointerOutside) /\
+  snd (X.Ty.Checker.check CkWit.cc0 (EBuiltin ann0 BiAll [EInt ann0 1; EPointer ann0])) = Some (noloc, X.Ty.Checker.CNotArray).
+Proof. vm_compute. repeat split; reflexivity. Qed.
+
+(* the three restrictions are needed: a visitor that builds `len()`, a pointer-to-map environment,
+   a cyclic embedding make the modelled Compile panic *)
+Example models_compile_carve_outs_needed :
+  mx_compile [OPatch (fun _ => POk CkWit.len0)] "1" = KPanic /\
+  mx_compile [OEnv (X.Ty.TypesTable.EMap (TPtr (TMap TString TIface)) []) VNil] "1" = KPanic /\
+  class_of (compile_api gen_recover (mx_stages CkWit.te_cyc) nil_on_err_compile compile_calls
+              [OEnv (X.Ty.TypesTable.EStruct (TStruct "T")) VNil] (X.Lex.Lexer.rs "1") VNil) = KPanic.
+Proof. vm_compute. repeat split; reflexivity. Qed.
+
+(* STILL PARTIAL.  Outside every model: Go stack exhaustion on deep recursion, time and memory,
+   panics inside reflect / regexp / strconv, trees with a nil child or a node type of the user's own
+   (ast.Walk and checker.visit panic on them: "undefined node type"), and the conformance of the
+   models to the code, which the correspondence runs (Corr/) test rather than prove. *)
